@@ -542,6 +542,7 @@ func (c *Check) scopeProvenance() {
 		c.Fail("C09-R4 lost instances: %d client calls with ids", nid)
 	}
 	c.noRequestMemo()
+	c.leaseClosedRouting("R4")
 }
 
 // noRequestMemo (R5): every request is answered from the chain / cluster as it is now, for the caller it came from.
